@@ -59,6 +59,52 @@ def fzf_action(a):
     return '%s(%s)' % (name, arg)
 
 
+def tmpl_selection(r, lines):
+    # select one line the coming query keeps and one it hides, then act on the current results only
+    steps = []
+    for c in r.sample(['a', 'b', 'o', 'e', 'f'], 5):
+        inside = [i for i, l in enumerate(lines) if c in l.lower()]
+        outside = [i for i, l in enumerate(lines) if c not in l.lower()]
+        if inside and outside:
+            picks = [r.choice(inside), r.choice(outside)]
+            if r.random() < 0.5 and len(inside) > 1:
+                picks.append(r.choice(inside))
+            r.shuffle(picks)
+            for i in picks:
+                steps.append([('pos', str(i + 1)), (r.choice(['select', 'toggle']), None)])
+            steps.append([('change-query', c)])
+            break
+    else:
+        steps = [[(r.choice(['toggle', 'select']), None), (r.choice(['up', 'down']), None)] for _ in range(r.randint(1, 4))]
+        steps.append([('change-query', r.choice(['a', 'b', 'o', 'foo', 'e']))])
+    steps += [[(r.choice(['toggle', 'toggle-down', 'toggle-up', 'up', 'down']), None)] for _ in range(r.randint(0, 2))]
+    steps.append([(r.choice(['toggle-all', 'toggle-all', 'select-all', 'deselect-all']), None)])
+    steps.append([(r.choice(['clear-query', 'toggle-all', 'up']), None)])
+    steps.append([(r.choice(['toggle-all', 'down', 'deselect']), None)])
+    return steps
+
+
+def tmpl_kill_ring(r, lines):
+    q = r.choice(['abcdef', 'hello world', 'foo bar baz', 'a-b c_d', 'xy'])
+    steps = [[('change-query', q)]]
+    steps += [[(r.choice(['backward-char', 'backward-word', 'forward-char']), None)] for _ in range(r.randint(1, 4))]
+    steps.append([(r.choice(['kill-line', 'kill-line', 'kill-line', 'unix-line-discard', 'kill-word', 'backward-kill-word', 'unix-word-rubout', 'cancel']), None)])
+    steps.append([r.choice([('put', 'XY'), ('put', 'XY'), ('beginning-of-line', None), ('end-of-line', None), ('put', 'q')])])
+    steps.append([('yank', None)])
+    steps.append([r.choice([('yank', None), ('put', 'Z'), ('backward-delete-char', None)])])
+    steps.append([('yank', None)])
+    return steps
+
+
+def tmpl_burst(r, lines):
+    # several selections inside one action list: selection order must still be the order of the toggles
+    acts = []
+    for _ in range(r.randint(2, 5)):
+        acts.append((r.choice(['toggle', 'toggle', 'select']), None))
+        acts.append((r.choice(['up', 'down', 'up', 'first', 'last']), None))
+    return [[(r.choice(['up', 'down', 'last']), None)], acts, [('accept', None)]]
+
+
 def gen_session(r, tier):
     n = r.choice([0, 1, 2, 3, 5, 8, 12, 20, 40])
     lines = [r.choice(WORDS) + (r.choice(['', ' ', '/']) + r.choice(WORDS) if r.random() < 0.4 else '') for _ in range(n)]
@@ -70,7 +116,18 @@ def gen_session(r, tier):
     for _ in range(nsteps):
         k = 1 if r.random() < 0.8 else r.randint(2, 3)
         steps.append([gen_action(r) for _ in range(k)])
-    steps.append([(r.choice(END), None)])
+    k = r.random()
+    if k < 0.5:
+        tmpl = r.choice([tmpl_selection, tmpl_selection, tmpl_kill_ring, tmpl_kill_ring, tmpl_burst])
+        if tmpl is not tmpl_kill_ring and opts['multi'] == 0:
+            opts['multi'] = r.choice([2, 3, 1000])
+        if tmpl is tmpl_selection:
+            opts['tac'], opts['nosort'] = 0, 0
+            if opts['multi'] < 3:
+                opts['multi'] = r.choice([3, 1000])
+        steps = steps[:r.randint(0, 4)] + tmpl(r, lines) + steps[:r.randint(0, 3)]
+    if not (steps and steps[-1] and steps[-1][0][0] in END):
+        steps.append([(r.choice(END), None)])
     return dict(opts=opts, lines=lines, steps=steps)
 
 
@@ -174,9 +231,35 @@ def drv_sessions(tier, seed, ctx):
         else:
             lines.append(line)
     rs = evaluate(ctx['driver'], lines)
+    # A verdict that depends on the terminal emulator, sockets and timing is only believed if the
+    # same session gives it again: re-run every session that did not pass, twice.
+    keep = []
+    flaky = 0
+    for res in rs:
+        if res['eq'] and res['spec'] != 'FAIL':
+            keep.append(res)
+            continue
+        again = []
+        for _ in range(2):
+            try:
+                rr = replay(dict(case=res['case']), ctx)
+            except Exception:
+                rr = []
+            again.append(rr[0] if rr else None)
+        same = [a for a in again if a is not None and (not a['eq'] or a['spec'] == 'FAIL')]
+        if len(same) == 2:
+            keep.append(res)
+        else:
+            flaky += 1
+            ok = next((a for a in again if a is not None and a['eq'] and a['spec'] != 'FAIL'), None)
+            if ok:
+                keep.append(ok)
+    rs = keep
+    if flaky:
+        notes.append('%d session(s) gave a verdict that did not repeat when re-run (terminal/timing flake); the re-run is reported' % flaky)
     for res in rs:
         res['proc'] = dict(kind='tmux-session')
-    if notes:
+    if notes and notes[0].startswith('driver error'):
         notes = ['%d sessions could not be driven: %s' % (len(notes), notes[0])]
     return rs, notes
 
